@@ -138,6 +138,22 @@ def _strip_generics(n):
     return r
 
 
+def derived_eq(cond):
+    """`if x == K` / `if x != K` (a boolean branch on a comparison with an integer constant) says the same as a `match x`
+    arm: also record it in the switch form (x eq K) / (x ne (K,)), so that rules read both spellings alike."""
+    t, op, val = cond[0], cond[1], cond[2]
+    if op != 'eq' or not isinstance(val, bool) or t[0] != 'bin' or t[1] not in ('Eq', 'Ne'):
+        return []
+    for a, b in ((t[2], t[3]), (t[3], t[2])):
+        k = b
+        while k[0] == 'cast' and len(k) > 2:
+            k = k[2]
+        if k[0] == 'const' and isinstance(k[1], int) and not isinstance(k[1], bool) and a[0] != 'const':
+            holds = (t[1] == 'Eq') == val
+            return [(a, 'eq', k[1], cond[3])] if holds else [(a, 'ne', (k[1],), cond[3])]
+    return []
+
+
 class Explorer:
     def __init__(self, body, max_paths=6000, max_blocks=400):
         self.body = body
@@ -536,13 +552,14 @@ class Explorer:
                         break
                     for tb, cond in branches[1:]:
                         np = Path()
-                        np.conds = path.conds + [cond]
+                        np.conds = path.conds + [cond] + derived_eq(cond)
                         np.events = list(path.events)
                         np.store = dict(path.store)
                         np.blocks = list(path.blocks)
                         stack.append((tb, np, heads, False))
                     tb, cond = branches[0]
                     path.conds.append(cond)
+                    path.conds.extend(derived_eq(cond))
                     bb = tb
                     continue
                 path.end = ('unreachable', bb)
